@@ -28,6 +28,13 @@ try:
     VS = S + '/verif'
     for pid, n in items:
         patch = os.path.join(V, 'seeded', pid, n, 'patch.diff')
+        try:
+            meta = json.load(open(os.path.join(V, 'seeded', pid, n, 'meta.json')))
+        except (OSError, ValueError):
+            meta = {}
+        if meta.get('equivalent_since_fix'):
+            print('%s/%s SKIPPED no violation any more since fix %s (see meta.json)' % (pid, n, meta['equivalent_since_fix']), flush=True)
+            continue
         r = subprocess.run(['git', '-C', S + '/repo', 'apply', '--whitespace=nowarn', patch], capture_output=True, text=True)
         if r.returncode != 0:
             print('%s/%s APPLY-FAILED %s' % (pid, n, r.stderr.strip()[:200]), flush=True)
